@@ -235,3 +235,103 @@ def same_extrema_options(model, got, given):
     if given == NONE:
         return got == d0
     return got == T.gamma(T.cmp_('Is', NONE, given), d0, given) or got == T.gamma(T.cmp_('Is', given, NONE), d0, given)
+
+
+VALUE_FREE_CALLS = {'len', 'argmax', 'argmin', 'nonzero', 'flatnonzero', 'where', 'searchsorted', 'argsort', 'shape', 'size', 'ndim', 'isnan', 'any', 'all', 'sign', 'isfinite'}
+
+
+def sample_arith(fnode, sig_params):
+    """dtype-sensitive arithmetic on raw sample values, by a forward taint from the signal parameter(s) of one function: {'diff': [...], 'neg': [...], 'prod': [...]} with
+    (line, text) entries.  Subscripts, arithmetic and value-preserving calls carry sample values; positions, lengths, comparisons and masks do not"""
+    import ast
+    tainted = set(sig_params)
+
+    def carries(n):
+        if isinstance(n, ast.Name):
+            return n.id in tainted
+        if isinstance(n, ast.Subscript):
+            return carries(n.value)
+        if isinstance(n, ast.BinOp):
+            return carries(n.left) or carries(n.right)
+        if isinstance(n, ast.UnaryOp):
+            return not isinstance(n.op, ast.Not) and carries(n.operand)
+        if isinstance(n, ast.IfExp):
+            return carries(n.body) or carries(n.orelse)
+        if isinstance(n, ast.Call):
+            name = n.func.attr if isinstance(n.func, ast.Attribute) else n.func.id if isinstance(n.func, ast.Name) else ''
+            if name in VALUE_FREE_CALLS:
+                return False
+            recv = carries(n.func.value) if isinstance(n.func, ast.Attribute) and not (isinstance(n.func.value, ast.Name) and n.func.value.id in ('np', 'numpy')) else False
+            return recv or any(carries(a) for a in n.args)
+        if isinstance(n, (ast.Tuple, ast.List)):
+            return any(carries(e) for e in n.elts)
+        return False
+    for _ in range(3):
+        for st in ast.walk(fnode):
+            if isinstance(st, ast.Assign) and carries(st.value):
+                for t in st.targets:
+                    for x in ast.walk(t):
+                        if isinstance(x, ast.Name) and isinstance(x.ctx, ast.Store):
+                            tainted.add(x.id)
+            elif isinstance(st, ast.AugAssign) and carries(st.value) and isinstance(st.target, ast.Name):
+                tainted.add(st.target.id)
+    out = {'diff': [], 'neg': [], 'prod': []}
+    for n in ast.walk(fnode):
+        if isinstance(n, ast.BinOp) and isinstance(n.op, ast.Sub) and carries(n.left) and carries(n.right):
+            out['diff'].append((n.lineno, ast.unparse(n)))
+        elif isinstance(n, ast.AugAssign) and isinstance(n.op, ast.Sub) and carries(n.target) and carries(n.value):
+            out['diff'].append((n.lineno, ast.unparse(n)))
+        elif isinstance(n, ast.UnaryOp) and isinstance(n.op, ast.USub) and carries(n.operand):
+            out['neg'].append((n.lineno, ast.unparse(n)))
+        elif isinstance(n, ast.BinOp) and isinstance(n.op, ast.Mult) and carries(n.left) and carries(n.right):
+            out['prod'].append((n.lineno, ast.unparse(n)))
+        elif isinstance(n, ast.BinOp) and isinstance(n.op, ast.Pow) and carries(n.left):
+            out['prod'].append((n.lineno, ast.unparse(n)))
+        elif isinstance(n, ast.Call) and (isinstance(n.func, ast.Attribute) and n.func.attr in ('dot', 'vdot', 'inner', 'square', 'multiply', 'outer')) and \
+                sum(1 for a in n.args if carries(a)) + (1 if isinstance(n.func.value, ast.Name) and n.func.value.id not in ('np', 'numpy') and carries(n.func.value) else 0) >= (1 if n.func.attr == 'square' else 2):
+            out['prod'].append((n.lineno, ast.unparse(n)))
+    return out
+
+
+def python_divisions(fnode):
+    """divisions whose denominator is a python scalar taken out of an array (.tolist() / .item() / float() / int() and what is computed from them with builtin min / max /
+    arithmetic): a zero there raises ZeroDivisionError, where the same division on numpy values gives inf / nan under the errstate the code already sets up"""
+    import ast
+    tainted = set()
+
+    def src(n):
+        return isinstance(n, ast.Call) and ((isinstance(n.func, ast.Attribute) and n.func.attr in ('tolist', 'item')) or
+                                            (isinstance(n.func, ast.Name) and n.func.id in ('float',) and n.args and not isinstance(n.args[0], ast.Constant)))
+
+    def carries(n):
+        if src(n):
+            return True
+        if isinstance(n, ast.Name):
+            return n.id in tainted
+        if isinstance(n, ast.Subscript):
+            return carries(n.value)
+        if isinstance(n, ast.BinOp):
+            return carries(n.left) and carries(n.right) or (carries(n.left) and isinstance(n.right, ast.Constant)) or (carries(n.right) and isinstance(n.left, ast.Constant))
+        if isinstance(n, ast.Call) and isinstance(n.func, ast.Name) and n.func.id in ('min', 'max', 'abs', 'sum', 'zip', 'list', 'tuple', 'enumerate', 'reversed', 'sorted'):
+            return any(carries(a) for a in n.args)
+        if isinstance(n, (ast.Tuple, ast.List)):
+            return any(carries(e) for e in n.elts)
+        return False
+    for _ in range(3):
+        for st in ast.walk(fnode):
+            if isinstance(st, ast.Assign) and carries(st.value):
+                for t in st.targets:
+                    for x in ast.walk(t):
+                        if isinstance(x, ast.Name) and isinstance(x.ctx, ast.Store):
+                            tainted.add(x.id)
+            elif isinstance(st, (ast.For, ast.comprehension)) and carries(st.iter):
+                for x in ast.walk(st.target):
+                    if isinstance(x, ast.Name):
+                        tainted.add(x.id)
+    protected = set()
+    for t in ast.walk(fnode):
+        if isinstance(t, ast.Try) and any(h.type is None or 'ZeroDivisionError' in ast.unparse(h.type) or 'ArithmeticError' in ast.unparse(h.type) or ast.unparse(h.type) == 'Exception'
+                                         for h in t.handlers):
+            protected |= {id(x) for b in t.body for x in ast.walk(b)}
+    return [(n.lineno, ast.unparse(n)) for n in ast.walk(fnode)
+            if isinstance(n, ast.BinOp) and isinstance(n.op, (ast.Div, ast.FloorDiv, ast.Mod)) and carries(n.right) and id(n) not in protected]
